@@ -1017,33 +1017,35 @@ func (p *PkgResolver) comparePackages(compare *RepositoryPackage, name string, e
 		}
 		// both matched or both did not, so just compare versions
 		// version priority
-		iVersion, err := cachedParseVersion(iVersionStr)
-		if err != nil {
+		// A version that fails to parse loses; if neither parses keep looking, so that
+		// the comparison stays antisymmetric.
+		iVersion, iErr := cachedParseVersion(iVersionStr)
+		jVersion, jErr := cachedParseVersion(jVersionStr)
+		switch {
+		case iErr != nil && jErr == nil:
 			return 1
-		}
-		jVersion, err := cachedParseVersion(jVersionStr)
-		if err != nil {
+		case iErr == nil && jErr != nil:
 			// If j fails to parse, prefer i.
 			return -1
-		}
-		versions := CompareVersions(iVersion, jVersion)
-		if versions != equal {
-			return -1 * versions
+		case iErr == nil && jErr == nil:
+			if versions := CompareVersions(iVersion, jVersion); versions != equal {
+				return -1 * versions
+			}
 		}
 		// if versions are equal, they might not be the same as the package versions
 		if iVersionStr != a.Version || jVersionStr != b.Version {
-			iVersion, err := cachedParseVersion(a.Version)
-			if err != nil {
+			iVersion, iErr := cachedParseVersion(a.Version)
+			jVersion, jErr := cachedParseVersion(b.Version)
+			switch {
+			case iErr != nil && jErr == nil:
 				return 1
-			}
-			jVersion, err := cachedParseVersion(b.Version)
-			if err != nil {
+			case iErr == nil && jErr != nil:
 				// If j fails to parse, prefer i.
 				return -1
-			}
-			versions := CompareVersions(iVersion, jVersion)
-			if versions != equal {
-				return -1 * versions
+			case iErr == nil && jErr == nil:
+				if versions := CompareVersions(iVersion, jVersion); versions != equal {
+					return -1 * versions
+				}
 			}
 		}
 		// if versions are equal, compare names
